@@ -221,6 +221,34 @@ Theorem C19_order_and_monotone_time :
     /\ (l <> [] -> exists rs, map o_rel out = 0 :: rs).
 Proof. exact order_and_monotone_time. Qed.
 
+(** ... and for ALL sequences of connector operations during the replay (Start, Stop,
+    reads; e.g. start / k packets / stop / start / the rest, or a sniffing mode re-enabled in
+    the middle): the replay time base persists across stop/start, so what is delivered is
+    exactly a prefix (as many packets as reads performed while started) of what a single
+    uninterrupted replay delivers — same packets, same order, same relative timestamps,
+    which therefore never decrease and are never negative over the WHOLE replay. *)
+Theorem C19_order_and_monotone_time_ops :
+  forall rnd hub d start (l : list pin) (ops : list rop),
+    monotone rnd ->
+    Forall (fun p => frame_ok d (i_frame p) = true) l ->
+    sortedb (map fst (clocks_of l)) = true ->
+    sortedb (ts_list (clocks_of l)) = true ->
+    (all_some (clocks_of l) \/ exists D, offset_consistent D (clocks_of l)) ->
+    let out := capture_replay rnd hub d start l in
+    let del := capture_replay_ops rnd hub d start l ops in
+    let n := eff_reads false ops in
+    del = firstn n (map (fun o => (o_rel o, o)) out)
+    /\ map (fun x => o_frame (snd x)) del = firstn n (map i_frame l)
+    /\ sortedb (map fst del) = true
+    /\ Forall (fun r => 0 <= r) (map fst del)
+    /\ ((length l <= n)%nat -> map fst del = map o_rel out /\ map (fun x => o_frame (snd x)) del = map i_frame l).
+Proof. exact order_and_monotone_time_ops. Qed.
+
+(** the op sequences the harness drives (restarts after k1, k1+k2, ... packets) read everything *)
+Theorem C19_restart_ops_read_all :
+  forall ks n, (n < eff_reads false (restart_ops ks n))%nat.
+Proof. exact eff_reads_restart. Qed.
+
 (** the clock hypothesis cannot be dropped: packets with and without device timestamp
     whose two clocks are unrelated have no common capture time *)
 Theorem C19_clock_hypothesis_needed :
